@@ -70,6 +70,16 @@ impl Group {
     {
         unimplemented!()
     }
+    // contract proved complete by CBMC obligation h_group on the real scanners
+    #[verifier::external_body]
+    pub fn convert_special_to_empty_and_full_to_deleted(self) -> (r: Group)
+        requires self.bytes@.len() == Group::WIDTH,
+        ensures
+            r.bytes@.len() == Group::WIDTH,
+            forall|k: int| 0 <= k < Group::WIDTH ==> #[trigger] r.bytes@[k] == (if self.bytes@[k] < 0x80u8 { 0x80u8 } else { 0xFFu8 }),
+    {
+        unimplemented!()
+    }
     #[verifier::external_body]
     pub fn match_empty(self) -> (r: BitMask)
         requires self.bytes@.len() == Group::WIDTH,
@@ -170,6 +180,34 @@ impl RawTableInner {
     pub fn group_load(&self, i: usize) -> (g: Group)
         requires i + Group::WIDTH <= self.ctrl@.len(),
         ensures g.bytes@ == self.ctrl@.subrange(i as int, i + Group::WIDTH),
+    {
+        unimplemented!()
+    }
+    // Group::store_aligned through a control pointer: WIDTH bytes written, in bounds and aligned are obligations
+    #[verifier::external_body]
+    pub fn group_store_aligned(&mut self, i: usize, g: Group)
+        requires i + Group::WIDTH <= old(self).ctrl@.len(), i % Group::WIDTH == 0, g.bytes@.len() == Group::WIDTH,
+        ensures
+            final(self).ctrl@.len() == old(self).ctrl@.len(),
+            forall|k: int| 0 <= k < old(self).ctrl@.len() ==>
+                #[trigger] final(self).ctrl@[k] == (if i <= k < i + Group::WIDTH { g.bytes@[k - i] } else { old(self).ctrl@[k] }),
+            final(self).bucket_mask == old(self).bucket_mask,
+            final(self).growth_left == old(self).growth_left,
+            final(self).items == old(self).items,
+    {
+        unimplemented!()
+    }
+    // ptr::copy between two control pointers (memmove semantics: the source is read before anything is written)
+    #[verifier::external_body]
+    pub fn ctrl_copy(&mut self, src: usize, dst: usize, count: usize)
+        requires src + count <= old(self).ctrl@.len(), dst + count <= old(self).ctrl@.len(),
+        ensures
+            final(self).ctrl@.len() == old(self).ctrl@.len(),
+            forall|k: int| 0 <= k < old(self).ctrl@.len() ==>
+                #[trigger] final(self).ctrl@[k] == (if dst <= k < dst + count { old(self).ctrl@[src + k - dst] } else { old(self).ctrl@[k] }),
+            final(self).bucket_mask == old(self).bucket_mask,
+            final(self).growth_left == old(self).growth_left,
+            final(self).items == old(self).items,
     {
         unimplemented!()
     }
